@@ -4,6 +4,7 @@ import math
 import numpy as np
 
 from .. import gen
+from .. import forms as vforms
 from ..util import scale_of
 
 ID = "C14"
@@ -157,6 +158,10 @@ def run_case(ctx, k, rng):
             ctx.check("symmetric", fin(v2) and abs(v2 * v2 - v * v) <= 2 * tol2, dfg=v, dgf=v2)
             vl = d(F.tolist(), G.tolist()) if len(F) and len(G) else v
             ctx.check("list form agrees", fin(vl) and abs(vl * vl - v * v) <= 2 * tol2, arr=v, lst=vl)
+            if len(F) and len(G):
+                (fa, na), (fb, nb) = vforms.relayout(rng, F), vforms.relayout(rng, G)
+                vy = d(fa, fb)
+                ctx.check("another memory layout agrees", fin(vy) and abs(vy * vy - v * v) <= 2 * tol2, arr=v, other=vy, layouts=[na, nb])
         elif sub == 1:
             H = gen.diagram(rng, int(rng.integers(0, 20)), None, scale)
             if rng.random() < 0.4 and len(F):
